@@ -158,6 +158,8 @@ def gen_scale(rng, atol=1e-5):
     (scales ≤ atol are 'rank deficient' for the code by definition of its test)"""
     lo = max(1e-3, 10 * atol)
     c = rng.random()
+    if c < 0.08:    # beyond the documented range: the statement says "every element"
+        return max(10 * atol, rng.choice([1e-4, 3e-4, 1e4, 1e5, 1e6]))
     if c < 0.3:
         return max(lo, rng.choice([1e-3, 1e3, 1.0, 2.0, 0.5, 1e-2, 1e2]))
     return 10 ** rng.uniform(math.log10(lo), 3)
@@ -166,7 +168,7 @@ def gen_scale(rng, atol=1e-5):
 def gen_elem(rng, eps, atol):
     """(t, q, s, tag) — a Sim3-like parameter set from which an element of any of the four types is cut"""
     q, tag = gen_quat(rng, eps, atol)
-    t = U.vec(rng, U.gen_mag(rng, eps, 1e3))
+    t = U.vec(rng, U.gen_mag(rng, eps, 1e3) if rng.random() < 0.92 else rng.choice([1e6, 1e9, 1e-30]))
     return t, q, gen_scale(rng, atol), tag
 
 
@@ -304,16 +306,16 @@ def prep_roundtrip(ctx: Ctx, case):
     else:
         qY = Yt[:, U.QSL[name]]
         nrm = (qY.norm(dim=-1) - 1).abs().max().item()
-        if nrm > 8 * eps:
+        if not nrm <= 8 * eps:
             bad = f"unit: |‖q‖−1| = {nrm:.3e} > 8 eps"
         qX = Xr[:, U.QSL[src]]
         dq = torch.minimum((qY - qX).norm(dim=-1), (qY + qX).norm(dim=-1)).max().item()
-        if bad is None and dq > K_ROT * eps:
+        if bad is None and not dq <= K_ROT * eps:
             bad = f"rotation: quaternion differs from X by {dq:.3e} > 16 eps (as a rotation)"
         if bad is None and U.SIDX[name] is not None:
             sY, sX = Yt[:, U.SIDX[name]], Xr[:, U.SIDX[src]]
             ds = ((sY - sX).abs() / sX).max().item()
-            if ds > K_ROT * eps:
+            if not ds <= K_ROT * eps:
                 bad = f"scale: relative scale error {ds:.3e} > 16 eps"
         if bad is None and U.TSL[name] is not None:
             tY = Yt[:, U.TSL[name]]
@@ -327,7 +329,7 @@ def prep_roundtrip(ctx: Ctx, case):
                 c = min(c, 3)
             sc = M64[:, :3, :3].abs().amax(dim=(-1, -2)).clamp_min(1e-300)
             dm = ((M2[:, :3, :3] - M64[:, :3, :3]).abs().amax(dim=(-1, -2)) / sc).max().item()
-            if dm > K_ROT * eps:
+            if not dm <= K_ROT * eps:
                 bad = f"matrix: rotation/scale block of result.matrix() differs from the input by {dm:.3e} > 16 eps (relative)"
             elif c == 4 and name in ("SE3", "Sim3") and not torch.equal(M2[:, :3, 3], M64[:, :3, 3]):
                 bad = "matrix: translation column of result.matrix() differs from the input"
@@ -340,11 +342,13 @@ def prep_roundtrip(ctx: Ctx, case):
             with warnings.catch_warnings():
                 warnings.simplefilter("ignore")
                 singles = torch.stack([call_conv(dict(case, api="direct"), Mi[i].clone()).tensor().double() for i in range(n)])
-            dbt = (singles - Yt).abs() / Yt.abs().clamp_min(1.0)
-            if not float(dbt.max()) <= 4 * eps:
-                i = int(dbt.amax(dim=-1).argmax())
-                ctx.fail(case, f"batch: {name} conversion of a batch (lshape {shape}) differs from the per-item call at item {i} by {float(dbt.max()):.3e} "
-                               f"(relative) [{dtype}, layout {case['lay']}, tags {case['tags'][:3]}]")
+            dbq = float((singles[:, U.QSL[name]] - Yt[:, U.QSL[name]]).abs().max())       # unit quaternion: absolute
+            dbs = float(((singles[:, U.SIDX[name]] - Yt[:, U.SIDX[name]]).abs() / Yt[:, U.SIDX[name]].abs()).max()) \
+                if U.SIDX[name] is not None else 0.0                                           # scale: relative
+            tsame = U.TSL[name] is None or torch.equal(singles[:, U.TSL[name]], Yt[:, U.TSL[name]])  # translation: a copy
+            if not (dbq <= 4 * eps and dbs <= 4 * eps and tsame):
+                ctx.fail(case, f"batch: {name} conversion of a batch (lshape {shape}) differs from the per-item calls: q {dbq:.3e}, s {dbs:.3e} (rel), "
+                               f"t equal={tsame} [{dtype}, layout {case['lay']}, tags {case['tags'][:3]}]")
         except Exception as e:
             ctx.fail(case, f"batch: per-item {name} conversion raised {type(e).__name__} where the batched call returned: {str(e)[:100]}")
     # ---- correspondence with the model on the same float matrix
@@ -384,7 +388,18 @@ def prep_roundtrip(ctx: Ctx, case):
 def run_stream(ctx: Ctx, cases, prep):
     lines, fins = [], []
     for case in cases:
-        res = prep(ctx, case)
+        try:
+            res = prep(ctx, case)
+        except common.InfraError:
+            raise
+        except Exception as e:   # the implementation's own result blew up while being used (wrong shape / dtype / type)
+            import traceback
+            tb = traceback.format_exc()
+            if "/pypose/" not in tb and "harness/c11.py" in tb and not isinstance(e, (RuntimeError, TypeError, IndexError, ValueError)):
+                raise
+            ctx.fail(case, f"crash: using the result of the implementation raised {type(e).__name__}: {str(e)[:120]} "
+                           f"[{case.get('stream')} {case.get('type', case.get('mode'))} {case.get('dtype')} lshape {case.get('shape')}]")
+            continue
         if res is None:
             continue
         ls, fin = res
@@ -624,7 +639,8 @@ def gen_euler(rng, ci):
         if mode == "e2q":
             data.append(gen_euler_angles(rng, eps))
         elif mode == "big":  # euler2SO3 accepts any real angles
-            data.append([rng.uniform(-10, 10) for _ in range(3)])
+            hi = rng.choice([10.0, 10.0, 1e3, 1e5 if dtype == "float64" else 1e3])
+            data.append([rng.uniform(-hi, hi) for _ in range(3)])
         else:
             c = rng.random()
             if c < 0.5:   # quaternion built from angles near the gimbal-lock boundary / principal range ends
@@ -680,9 +696,9 @@ def prep_euler(ctx: Ctx, case):
             r, pt, y = Ef[i].tolist()
             ref = torch.tensor(rzyx(r, pt, y), dtype=torch.float64)
             dm = float((Mq[i] - ref).abs().max())
-            if dm > K_ROT * eps:
+            if not dm <= K_ROT * eps:
                 ctx.fail(case, f"rzyx: matrix of euler2SO3({r!r},{pt!r},{y!r}) differs from Rz·Ry·Rx by {dm:.3e} > 16 eps ({dtype})")
-            if abs(float(Qf[i].norm()) - 1) > 8 * eps:
+            if not abs(float(Qf[i].norm()) - 1) <= 8 * eps:
                 ctx.fail(case, f"unit: euler2SO3 result not a unit quaternion ({dtype})")
             # euler ∘ euler2SO3 = id on the principal ranges, regular region
             cp = math.cos(pt)
@@ -691,7 +707,7 @@ def prep_euler(ctx: Ctx, case):
                 tolb = K_ROT * eps / max(cp, 1e-3) * math.pi
                 dd = (back[i] - Ef[i]).abs().tolist()
                 d = max(min(dd[0], abs(dd[0] - 2 * math.pi)), dd[1], min(dd[2], abs(dd[2] - 2 * math.pi)))  # roll/yaw: same angle
-                if d > tolb:
+                if not d <= tolb:
                     ctx.fail(case, f"inverse: euler(euler2SO3(e)) differs from e by {d:.3e} > {tolb:.3e} at e=({r!r},{pt!r},{y!r}) ({dtype})")
             if n > 1:
                 one = p.euler2SO3(E.reshape(n, 3)[i].clone()).tensor().double()
@@ -743,7 +759,7 @@ def prep_euler(ctx: Ctx, case):
             cosp = math.sqrt(max(1 - t2 * t2, 0.0))
             d = U.quat_dist(Back[i].tolist(), Qf[i].tolist())
             tolb = K_ROT * eps / max(cosp, 1e-3)
-            if d > tolb:
+            if not d <= tolb:
                 ctx.fail(case, f"converse: euler2SO3(X.euler()) differs from X by {d:.3e} > {tolb:.3e} (16 eps / cos pitch) for q={Qf[i].tolist()} ({dtype}, eps={case['eeps']})")
         elif abs(t2) >= 1 - case["eeps"] + 64 * eps:
             # inside the gimbal-lock band the code sets roll = 0 and folds it into yaw: Rz(yaw)·Ry(pitch)·Rx(0) must still
